@@ -3,7 +3,16 @@
 Runtime monitoring of the REAL objects (alg/sha256.c, sha1.c, md5.c,
 crypto_aes*.c, crypto_aesctr*.c, crypto_dh.c, aws_readkeys.c) in the builds
 plain (-O2), asan (-O1 + ASan/UBSan) and, thorough only, lto (-O2 -flto), each
-with and without CPUSUPPORT_X86_AESNI:
+in four AES environments (ENVS below): compiled with CPUSUPPORT_X86_AESNI and
+the CPU has it; compiled without; compiled with it but the run-time detector
+answers "absent" (harness/c20_detect_stub.c replaces
+cpusupport/cpusupport_x86_aesni.c, as C03 does); compiled with it, CPU has it,
+but the library's AES-NI self-test fails at start-up (--aesni-selftest-fails).
+The last two are the run-time fallbacks inside a hardware-capable binary: the
+key is an OpenSSL AES_KEY although HWACCEL is defined.  aws_readkeys
+additionally runs under stdio fault injection (--wrap=fopen,fgets,ferror,
+fclose: failing fopen, read error at every fgets position, fclose that closes
+and then reports an error), judged against aws_model().
 
  (a) after SHA256/SHA1/MD5_Final and HMAC_*_Final every byte of the context
      object (pre-filled with 0xA5; placed at every legal alignment - 0/8 resp.
@@ -33,6 +42,7 @@ Self-checks on every case: the live AES key / stream object DOES contain the
 patterns just before it is freed, and an unwiped control block freed by the
 driver (BN_bin2bn + BN_free for DH) IS reported by the hook.
 """
+import errno
 import hashlib
 import hmac
 import os
@@ -50,10 +60,28 @@ SRCS = ['alg/sha256.c', 'alg/sha256_shani.c', 'alg/sha256_sse2.c',
         'crypto/crypto_aesctr.c', 'crypto/crypto_aesctr_aesni.c',
         'crypto/crypto_dh.c', 'crypto/crypto_dh_group14.c',
         'aws/aws_readkeys.c', 'util/insecure_memzero.c', 'util/warnp.c']
-DRV = ['c20_wipe.c', 'common/wrapalloc.c', 'common/wa_openssl.c',
+DRV = ['c20_wipe.c', 'c20_detect_stub.c', 'common/wrapalloc.c', 'common/wa_openssl.c',
        'common/refaes.c']
-WRAPS = ('malloc', 'calloc', 'realloc', 'free', 'strdup')
+WRAPS = ('malloc', 'calloc', 'realloc', 'free', 'strdup',
+         # stdio fault injection around aws_readkeys (pass-through otherwise)
+         'fopen', 'fgets', 'ferror', 'fclose')
 NO_AESNI = [c for c in core.ALL_CPU if c != 'X86_AESNI']
+DETECTOR = 'cpusupport/cpusupport_x86_aesni.c'
+# The AES code in four environments:
+#  aesni  - compiled with CPUSUPPORT_X86_AESNI, real detector (this host: present)
+#  soft   - compiled without CPUSUPPORT_X86_AESNI
+#  absent - the objects of `aesni`, but harness/c20_detect_stub.c is linked in
+#           place of cpusupport/cpusupport_x86_aesni.c and answers "no AES-NI"
+#  stfail - the executable of `aesni` started with --aesni-selftest-fails: the
+#           library's start-up self-test of the AES-NI code fails (its
+#           allocation is refused), so it falls back to OpenSSL at run time
+ENVS = ('aesni', 'soft', 'absent', 'stfail')
+ENV_ARGS = {'stfail': ('--aesni-selftest-fails',)}
+ENV_TEXT = {'aesni': '', 'soft': ' (without CPUSUPPORT_X86_AESNI)',
+            'absent': ' (with CPUSUPPORT_X86_AESNI; substituted detector cpusupport_x86_aesni_detect_1 '
+                      'answers "absent")',
+            'stfail': ' (with CPUSUPPORT_X86_AESNI, CPU has it; the library\'s AES-NI self-test is made '
+                      'to fail at start-up: run-time fallback to OpenSSL)'}
 
 ALGS = ['sha256', 'sha1', 'md5']
 HL = {'sha256': hashlib.sha256, 'sha1': hashlib.sha1, 'md5': hashlib.md5}
@@ -76,7 +104,7 @@ def sig(*a):
 
 def builds_for(tier):
     cfgs = ['plain', 'asan'] + (['lto'] if tier == 'thorough' else [])
-    return [(cfg, cpu) for cfg in cfgs for cpu in ('aesni', 'soft')]
+    return [(cfg, cpu) for cfg in cfgs for cpu in ENVS]
 
 
 def bname(cfg, cpu):
@@ -212,6 +240,11 @@ def gen_script(rnd, two, big):
                 inited = True
             else:
                 ops.append('a')
+                if rnd.random() < 0.12:
+                    # allocated, never initialised, freed
+                    ops.append('f')
+                    shape.append('af')
+                    continue
                 k = rnd.randrange(1, 3 if two else 2)
                 ops.append('r:%d:%x' % (k, nonce()))
                 shape.append('a%d' % k)
@@ -376,12 +409,87 @@ def rtext(rnd, n):
     return ''.join(rnd.choice(B64) for _ in range(n))
 
 
-def gen_aws(rnd, n, add):
-    kinds = ['dup-secret', 'unknown-line', 'no-equals', 'missing-id', 'dup-id',
+FOPEN_ERRNOS = [errno.ENOENT, errno.EACCES, errno.EMFILE, errno.ENFILE, errno.ENOMEM, errno.EINTR]
+IO_ERRNOS = [errno.EIO, errno.ESTALE, errno.EINTR, errno.ENOSPC, errno.EDQUOT, errno.EBADF]
+FAULT_TYPES = ['fc', 'fg', 'rd', 'fo']
+
+
+def aws_model(lines, unterminated_last, failat, fault):
+    """What aws_readkeys must do with this file under this fault ->
+    (return value, a secret was read before the end).  Mirrors the control
+    flow of the function (one fgets per line; the key file is shorter than
+    libc's buffer, so it is read by the first fgets).  fault: None,
+    ('fo',), ('fc',), ('fg', k), ('rd', k)."""
+    ft = fault[0] if fault else None
+    k = fault[1] if fault and len(fault) > 1 else 0
+    if ft == 'fo':
+        return (-1, False)
+    have_id = have_sec = False
+    nalloc = 0
+    armed = False
+    call = 0
+    broke = False
+    for idx, ln in enumerate(lines):
+        call += 1
+        if ft == 'fg' and k == call:
+            return (-1, have_sec)
+        if ft == 'rd' and k == call:
+            if call == 1:
+                return (-1, False)          # the very first read(2) fails
+            armed = True
+        if unterminated_last and idx == len(lines) - 1:
+            if armed:
+                return (-1, have_sec)       # libc looks for the rest of the line: EISDIR
+            broke = True                    # "Missing EOL": break
+            break
+        if '=' not in ln:
+            return (-1, have_sec)
+        name = ln.split('=', 1)[0]
+        if name == 'ACCESS_KEY_ID':
+            if have_id:
+                return (-1, have_sec)
+            nalloc += 1
+            if nalloc == failat:
+                return (-1, have_sec)
+            have_id = True
+        elif name == 'ACCESS_KEY_SECRET':
+            if have_sec:
+                return (-1, have_sec)
+            nalloc += 1
+            if nalloc == failat:
+                return (-1, have_sec)
+            have_sec = True
+        else:
+            return (-1, have_sec)
+    if not broke:
+        call += 1                           # the fgets that meets the end of the file
+        if ft == 'fg' and k == call:
+            return (-1, have_sec)
+        if ft == 'rd' and (armed or k == call):
+            return (-1, have_sec)
+    if ft == 'fc':
+        return (-1, have_sec)
+    if not (have_id and have_sec):
+        return (-1, have_sec)
+    return (0, have_sec)
+
+
+AWS_KINDS = ['dup-secret', 'unknown-line', 'no-equals', 'missing-id', 'dup-id',
              'noeol-missing-id', 'strdup-fail', 'empty-line', 'success',
              'fail-before-secret', 'secret-then-eof-garbage']
-    for _ in range(n):
-        kind = rnd.choice(kinds)
+
+
+def gen_aws(rnd, n, add):
+    kinds = AWS_KINDS
+    # the first cases of every shard are the cross product kind x fault type,
+    # the rest is drawn at random (about half of them with a fault)
+    plan = [(kd, ft) for ft in FAULT_TYPES for kd in kinds]
+    for ci in range(n):
+        if ci < len(plan):
+            kind, ftype = plan[ci]
+        else:
+            kind = rnd.choice(kinds)
+            ftype = rnd.choice([None] * 5 + ['fc', 'fc', 'fg', 'rd', 'fo'])
         sl = rnd.choice([8, 9, 16, 17, 40, 40, 40, rnd.randrange(8, 200), rnd.randrange(8, 990)])
         if rnd.random() < 0.05:
             sl = rnd.randrange(0, 8)           # too short to search for
@@ -432,16 +540,40 @@ def gen_aws(rnd, n, add):
         else:   # fail-before-secret
             lines = rnd.choice([['junk', sline], [iline, iline, sline], ['X=y', sline, iline]])
             after = False
+        unterminated = kind in ('noeol-missing-id', 'secret-then-eof-garbage')
         content = eol.join(lines)
-        if kind not in ('noeol-missing-id', 'secret-then-eof-garbage'):
+        if not unterminated:
             content += eol
+        # the model must reproduce the hand-written expectation of the fault-free kinds
+        m_ret, m_sec = aws_model(lines, unterminated, failat, None)
+        assert m_ret == expect and (m_ret == -1 and m_sec) == after, (kind, lines, m_ret, m_sec)
+        fault, ftok, fsig = None, '-', None
+        if ftype == 'fo':
+            fault, ftok = ('fo',), 'fo:%d' % rnd.choice(FOPEN_ERRNOS)
+            fsig = 'fo'
+        elif ftype == 'fc':
+            fault, ftok = ('fc',), 'fc:%d' % rnd.choice(IO_ERRNOS)
+            fsig = 'fc'
+        elif ftype in ('fg', 'rd'):
+            # 1 .. the call that meets the end of the file (+1: never reached)
+            k = rnd.randrange(1, len(lines) + 3)
+            if rnd.random() < 0.4:
+                k = len(lines) + (0 if unterminated else 1)
+            fault = (ftype, k)
+            ftok = 'fg:%d:%d' % (k, rnd.choice(IO_ERRNOS)) if ftype == 'fg' else 'rd:%d' % k
+            fsig = (ftype, k - len(lines))
+        if fault is not None:
+            expect, m_sec = aws_model(lines, unterminated, failat, fault)
+            after = expect == -1 and m_sec
         pats = [s.encode() for s in secrets if len(s) >= 8]
         # the key id must not happen to contain secret text
         assert all(s[i:i + 8] not in kid for s in secrets for i in range(max(0, len(s) - 7)))
         ps = ','.join(p.hex() for p in pats) if pats else '-'
-        add('aws', 'aws-' + kind, 'W %s %d %s' % (core.hx(content.encode()), failat, ps),
-            str(expect), sig('W', kind, min(sl, 50), len(lines), eol),
-            after and len(sec) >= 8, pnames=['secret'] + (['second-secret'] if len(pats) > 1 else []))
+        add('aws', 'aws-' + kind + ('+' + ftype if ftype else ''),
+            'W %s %d %s %s' % (core.hx(content.encode()), failat, ps, ftok),
+            str(expect), sig('W', kind, min(sl, 50), len(lines), eol, fsig),
+            after and len(sec) >= 8, pnames=['secret'] + (['second-secret'] if len(pats) > 1 else []),
+            fault=ftype, base=kind)
 
 
 SIZES = {
@@ -569,6 +701,20 @@ def judge(c, ans):
         st('harness.control_missed.' + g)
     if g in ('aes', 'ctr'):
         st('aes.impl_aesni' if d.get('impl') == '1' else 'aes.impl_openssl')
+        env = b.split('-')[-1]
+        if env == 'absent':
+            # compiled with AES-NI, the substituted detector must have been asked and obeyed
+            if d.get('impl') != '0' or int(d.get('det', -1)) < 1:
+                st('harness.absent_build_did_not_fall_back')
+            else:
+                st('aes.env.detector_said_absent_openssl_key_used')
+        elif env == 'stfail':
+            if d.get('impl') != '0' or int(d.get('stf', -1)) < 1:
+                st('harness.selftest_failure_not_injected')
+            else:
+                st('aes.env.selftest_failed_openssl_key_used')
+        elif d.get('det') != '-1' or d.get('stf') != '-1':
+            st('harness.unexpected_environment_flags')
         if d.get('enc') != '1':
             st('harness.aes_output_differs_from_reference')
         present = int(d.get('present', 0))
@@ -586,6 +732,11 @@ def judge(c, ans):
                 st('harness.ctr_block_alignment_not_as_requested')
         if g == 'ctr':
             st('ctr.stream_objects_freed', int(d.get('objs', 0)))
+            st('ctr.freed.never_initialised', int(d.get('funinit', 0)))
+            st('ctr.freed.initialised_unused', int(d.get('funused', 0)))
+            st('ctr.freed.mid_block', int(d.get('fmid', 0)))
+            st('ctr.freed.on_block_boundary', int(d.get('ffull', 0)))
+            st('ctr.freed.after_init2_reuse', int(d.get('frekeyed', 0)))
             st('ctr.objects_caching_known_keystream_at_free', present)
             st('ctr.key_windows_present_before_free', int(d.get('presentkey', 0)))
         else:
@@ -636,16 +787,46 @@ def judge(c, ans):
             c['nt'] = False
         c['sig'] = sig('F', op, n, meta['xbits'] // 32, meta['rbits'] // 32)
     elif g == 'aws':
+        ft = meta.get('fault')
+        fired = d.get('sf') == '1'
         if d.get('ret') != c['expect']:
-            st('harness.aws_unexpected_ret')
+            # includes: a stdio fault fired and aws_readkeys did not report failure
+            st('harness.aws_unexpected_ret' + ('_under_fault_' + ft if ft else ''))
             c['nt'] = False
+        if ft:
+            st('aws.fault.%s.cases' % ft)
+            if fired:
+                st('aws.fault.%s.fired' % ft)
+            if ft == 'rd' and d.get('sfnull') == '1':
+                st('aws.fault.rd.libc_reported_read_error')
+            if fired and d.get('ret') == '-1':
+                st('aws.fault.%s.returned_-1' % ft)
+            if ft in ('fo', 'fc') and not fired:
+                st('harness.aws_fault_not_fired_' + ft)
+            if ft == 'fo' and (frees or int(d.get('allocs', 0))):
+                st('harness.aws_fopen_failed_but_allocations_seen')
+        st('aws.fopen_calls', int(d.get('nfopen', 0)))
+        st('aws.fgets_calls', int(d.get('nfgets', 0)))
+        st('aws.fclose_calls', int(d.get('nfclose', 0)))
+        if d.get('ret') == '-1':
+            st('aws.failed_runs_live_blocks_checked')
+            st('aws.blocks_left_behind', int(d.get('leftblocks', 0)))
         if d.get('ret') == '-1' and c['nt']:
             st('aws.failed_after_secret_read')
+            if ft and fired:
+                st('aws.fault.%s.failed_after_secret_read' % ft)
+                if meta.get('base') in ('success', 'secret-then-eof-garbage'):
+                    st('aws.fault.%s.well_formed_file_failed_after_secret_read' % ft)
             if frees == 0:
                 st('harness.aws_no_free_seen')
                 c['nt'] = False
         if wins == 0:
             c['nt'] = False
+        left = int(d.get('left', 0))
+        if left > 0 and hits == 0:
+            return ('wipe:left-behind:aws-secret:%s' % b.split('-')[0],
+                    'build %s, %s: aws_readkeys returned -1 and %d block(s) it allocated are still live and '
+                    'hold secret text (neither wiped nor freed)' % (b, c['kind'], left))
     if hits > 0:
         cls = d.get('hcls', '?')
         what = cls
@@ -658,6 +839,13 @@ def judge(c, ans):
         kcls = {'text': 'aws-secret', 'dh': 'dh-secret'}.get(cls, cls)
         bb = b if g in ('aes', 'ctr') else b.split('-')[0]
         where = ''
+        if g == 'aws' and meta.get('fault') and d.get('sf') == '1':
+            ftok = c['line'].split()[-1]
+            kcls += '-iofault'       # first leak seen on a path only an I/O error reaches
+            where = {'fc': ' (fclose of the key file reported errno %s after closing it)',
+                     'fg': ' (fgets call #%s reported a read error, errno %s)',
+                     'rd': ' (read(2) under the stream failed with EISDIR from fgets call #%s on)',
+                     'fo': ' (fopen failed, errno %s)'}[meta['fault']] % tuple(ftok.split(':')[1:])
         if g == 'dhf':
             hf = int(d.get('hfault', 0))
             if hf:
@@ -681,42 +869,70 @@ def judge(c, ans):
 # ---------------------------------------------------------------------------
 
 def build_one(a):
-    tmp, cfg, cpu = a
-    d = os.path.join(tmp, 'b-' + bname(cfg, cpu))
+    """One compile-time configuration -> [(build name, exe, error)].  'hw'
+    (compiled with CPUSUPPORT_X86_AESNI) yields three run-time environments
+    from the same library objects: aesni (real detector), absent (detector
+    replaced by harness/c20_detect_stub.c) and stfail (the aesni executable
+    started with --aesni-selftest-fails)."""
+    tmp, cfg, kind, envs = a
+    d = os.path.join(tmp, 'b-%s-%s' % (cfg, kind))
     os.makedirs(d, exist_ok=True)
     bld = core.Builder(d)
-    cpul = None if cpu == 'aesni' else NO_AESNI
+    cpul = None if kind == 'hw' else NO_AESNI
+    out = []
     try:
         objs = bld.lib(cfg, SRCS, cpu=cpul)
-        exe = bld.driver('c20', cfg, DRV, objs, wraps=WRAPS, cpu=cpul,
-                         defs=('VH_WRAPALLOC',))
+        if kind == 'soft':
+            exe = bld.driver('c20', cfg, DRV, objs, wraps=WRAPS, cpu=cpul,
+                             defs=('VH_WRAPALLOC',))
+            out.append((bname(cfg, 'soft'), exe, None))
+        else:
+            if 'aesni' in envs or 'stfail' in envs:
+                exe = bld.driver('c20', cfg, DRV, objs, wraps=WRAPS, cpu=cpul,
+                                 defs=('VH_WRAPALLOC',))
+                out += [(bname(cfg, e), exe, None) for e in ('aesni', 'stfail') if e in envs]
+            if 'absent' in envs:
+                # the same objects, minus the real detector
+                nodet = [o for s_, o in zip(SRCS, objs) if s_ != DETECTOR]
+                assert len(nodet) == len(objs) - 1
+                exe = bld.driver('c20', cfg, DRV, nodet, wraps=WRAPS, cpu=cpul,
+                                 defs=('VH_WRAPALLOC', 'C20_STUB_AESNI'))
+                out.append((bname(cfg, 'absent'), exe, None))
     except core.Inconclusive as e:
-        return (bname(cfg, cpu), None, str(e))
-    return (bname(cfg, cpu), exe, None)
+        return [('%s-%s' % (cfg, kind), None, str(e))]
+    return out
 
 
 def build_all(ctx, which):
-    res = core.tmap(build_one, [(ctx.tmp, cfg, cpu) for cfg, cpu in which])
+    jobs = {}
+    for cfg, cpu in which:
+        jobs.setdefault((cfg, 'soft' if cpu == 'soft' else 'hw'), []).append(cpu)
+    res = core.tmap(build_one, [(ctx.tmp, cfg, kind, tuple(envs)) for (cfg, kind), envs in jobs.items()])
     exes = {}
-    for name, exe, err in res:
-        if exe is None:
-            raise core.Inconclusive('build %s failed: %s' % (name, err))
-        exes[name] = exe
+    for lst in res:
+        for name, exe, err in lst:
+            if exe is None:
+                raise core.Inconclusive('build %s failed: %s' % (name, err))
+            exes[name] = exe
     return exes
+
+
+def drv_args(build, scr):
+    return (scr,) + ENV_ARGS.get(build.split('-')[-1], ())
 
 
 def _shard(a):
     build, exe, seed, tier, i, n, tmp = a
     STATS.clear()
     cases = gen_cases(seed, tier, i, n)
-    if build.endswith('-soft'):
-        # only the AES paths differ without AES-NI
+    if not build.endswith('-aesni'):
+        # only the AES paths differ between the AES environments
         cases = [c for c in cases if c['meta']['group'] in ('aes', 'ctr', 'zero')]
     for c in cases:
         c['meta']['build'] = build
     scr = os.path.join(tmp, 'scr-%s-%d' % (build, i))
     os.makedirs(scr, exist_ok=True)
-    r = core.line_shard(exe, cases, judge=judge, args=(scr,), timeout=1500)
+    r = core.line_shard(exe, cases, judge=judge, args=drv_args(build, scr), timeout=1500)
     r['build'] = build
     r['mystats'] = dict(STATS)
     r['samples'] = []
@@ -740,9 +956,17 @@ REQUIRED = {
              'dhf.frees_scanned', 'dhf.positive_control_hits',
              'dhf.G.fault_points_fired', 'dhf.C.fault_points_fired',
              'dhf.G.returned_-1', 'dhf.C.returned_-1',
-             'aws.failed_after_secret_read', 'aws.positive_control_hits'],
+             'aws.failed_after_secret_read', 'aws.positive_control_hits',
+             'aws.failed_runs_live_blocks_checked',
+             'aws.fault.fo.returned_-1', 'aws.fault.fc.failed_after_secret_read',
+             'aws.fault.fc.well_formed_file_failed_after_secret_read',
+             'aws.fault.fg.failed_after_secret_read', 'aws.fault.rd.failed_after_secret_read',
+             'aws.fault.rd.libc_reported_read_error'],
+    'absent': ['aes.env.detector_said_absent_openssl_key_used'],
+    'stfail': ['aes.env.selftest_failed_openssl_key_used'],
     'aes': ['zero.calls', 'aes.key_objects_8_mod_16_with_256bit_key', 'aes.key_objects_16_aligned',
-            'ctr.objects_8_mod_16',
+            'ctr.objects_8_mod_16', 'ctr.freed.never_initialised', 'ctr.freed.initialised_unused',
+            'ctr.freed.mid_block', 'ctr.freed.on_block_boundary', 'ctr.freed.after_init2_reuse',
             'aes.frees_scanned', 'aes.positive_control_hits',
             'aes.cases_secret_present_before_free', 'ctr.frees_scanned',
             'ctr.cases_secret_present_before_free'],
@@ -773,7 +997,8 @@ def run(ctx):
             ctx.add_sample(s, limit=10)
     # a run that observed nothing must not pass
     for b, d in per.items():
-        need = REQUIRED['aes'] + ([] if b.endswith('-soft') else REQUIRED['full'])
+        env = b.split('-')[-1]
+        need = REQUIRED['aes'] + (REQUIRED['full'] if env == 'aesni' else REQUIRED.get(env, []))
         for k in need:
             if d.get(k, 0) <= 0:
                 ctx.note_inconclusive('build %s: monitor counter %s is 0' % (b, k))
@@ -783,6 +1008,10 @@ def run(ctx):
     aesni = sum(d.get('aes.impl_aesni', 0) for b, d in per.items() if b.endswith('-aesni'))
     if aesni == 0:
         ctx.assumptions.append('this host did not select the AES-NI code: crypto_aes_aesni.c key_free was NOT exercised')
+    for b, d in per.items():
+        # every fallback environment must really have run on OpenSSL keys
+        if not b.endswith('-aesni') and d.get('aes.impl_aesni', 0):
+            ctx.note_inconclusive('build %s: %d cases ran on the AES-NI code' % (b, d['aes.impl_aesni']))
     ctx.cov['rule'] = (
         'cases: (a) hash/HMAC x {sha256,sha1,md5} x context on {end of an exact-size heap block, stack frame} x every legal '
         'placement (0/8 bytes past a 16-byte boundary for the SHA256 types, 0/4/8/12 for the SHA1 and MD5 types; the placements '
@@ -792,8 +1021,15 @@ def run(ctx):
         '0..130 (thorough 0..600) x off 0..15 x {heap block with 16 spare bytes, exact heap block, stack array} x 2-5 fill bytes '
         'per shard: exactly [off, off+len) zero, all other bytes untouched; (b) AES keys 128/256 (random + FIPS vectors + '
         'constant keys) expand/encrypt/free, every key once with the library\'s blocks 16-byte aligned and once with blocks '
-        'that are 8 mod 16 (wa_misalign), key bytes searched in 8-byte windows; AES-CTR object scripts (half of them with 8-mod-16 blocks; init | alloc+init2, stream lengths around 16-byte '
-        'boundaries, init2 re-use with same/other/NULL key, free); DH generate_pub/compute/generate with random and extreme '
+        'that are 8 mod 16 (wa_misalign), key bytes searched in 8-byte windows; AES-CTR object scripts (half of them with 8-mod-16 blocks; init | alloc+init2 | alloc then free without init2, stream lengths around 16-byte '
+        'boundaries, init2 re-use with same/other/NULL key, free; counters ctr.freed.* give the state of the stream objects when freed: never initialised, initialised but unused, mid-block, on a block boundary, after init2 re-use); '
+        'every AES key / AES-CTR / memzero case runs in FOUR environments per compiler configuration (builds_run): <cfg>-aesni (compiled with CPUSUPPORT_X86_AESNI, '
+        'real detector: the AES-NI code), <cfg>-soft (compiled without it), <cfg>-absent (the SAME objects compiled with CPUSUPPORT_X86_AESNI, but '
+        'harness/c20_detect_stub.c is linked in place of cpusupport/cpusupport_x86_aesni.c and cpusupport_x86_aesni_detect_1 answers "absent": '
+        'run-time fallback to an OpenSSL AES_KEY inside a hardware-capable binary; counter aes.env.detector_said_absent_openssl_key_used) and '
+        '<cfg>-stfail (the -aesni executable started with --aesni-selftest-fails: the allocation inside crypto_aes_key_expand_aesni is refused '
+        'during the library\'s first crypto_aes_can_use_intrinsics(), the AES-NI self-test fails, the library prints "Disabling HW_X86_AESNI" '
+        'and uses OpenSSL keys from then on; counter aes.env.selftest_failed_openssl_key_used); DH generate_pub/compute/generate with random and extreme '
         'x and r (0, 2^256-1, short, long carry chains), entropy failures; (c) DH fault enumeration: for every (x, r, peer) '
         'triple of group dhf (ops G=generate_pub, C=compute, D=generate in rotation, same value classes as above) the driver '
         'warms OpenSSL up (one clean and one failing run), counts the N allocations OpenSSL requests through '
@@ -801,7 +1037,17 @@ def run(ctx):
         'refused (NULL), free-time scan active, error queue cleared after each run, and counts again; every refused run must '
         'return -1 (0 if OpenSSL copes) and release no block holding an image of x, x+2^258, r, r+2^256, (x+2^258)-(r+2^256); '
         'counters dhf.<op>.* per build give cases, N summed, fault runs, fault points that fired, returns; key files failing after the secret line (duplicate '
-        'secret, unknown line, no "=", empty line, missing id, duplicate id, no EOL, failed strdup of the id). '
+        'secret, unknown line, no "=", empty line, missing id, duplicate id, no EOL, failed strdup of the id); '
+        'stdio fault injection around aws_readkeys (-Wl,--wrap=fopen,fgets,ferror,fclose; every shard starts with the cross product '
+        '11 file kinds (incl. the two well-formed ones) x 4 fault types, then about half of the random files carry a fault): fo = fopen returns NULL '
+        '(ENOENT/EACCES/EMFILE/ENFILE/ENOMEM/EINTR), fc = the (only) fclose of the call really closes the stream and then returns EOF with errno '
+        'EIO/ESTALE/EINTR/ENOSPC/EDQUOT/EBADF - on the main path of a well-formed file as well as on the error paths, fg = the k-th fgets returns NULL '
+        'and ferror() answers 1 (k = 1 .. the call that meets end of file, and beyond), rd = the descriptor under the stream is replaced by a '
+        'directory before the k-th fgets so that libc itself gets EISDIR from read(2) and sets the error indicator; the expected return value of '
+        'every file x fault comes from a model of the function\'s control flow (aws_model; a mismatch is reported as harness.aws_unexpected_ret*, '
+        'i.e. a fired fault that is not reported as -1 makes the run inconclusive); on every -1 the free-time scan must find no secret text in any freed block and '
+        'the blocks allocated during the call that are still live are searched too (wipe:left-behind); counters aws.fault.<type>.{cases,fired,returned_-1,'
+        'failed_after_secret_read,well_formed_file_failed_after_secret_read}, aws.fopen/fgets/fclose_calls. '
         'non-trivial: ctx - every case; AES/CTR - the live object held the searched bytes just before free; DH/aws - at least '
         'one searchable window and one block freed; dhf - additionally at least one fault point fired (signature includes N). distinct = distinct (kind, length classes, script shape) signatures; the '
         'same inputs are replayed on every build.')
@@ -817,9 +1063,19 @@ def run(ctx):
                                   if k.startswith('dhf.%s.triples_with_N=' % op)}}
             for op in ('G', 'C', 'D')}
         for b, d in sorted(per.items()) if not b.endswith('-soft')}
-    ctx.cov['builds_run'] = ['%s: gcc %s%s' % (bname(c, u), ' '.join(core.CFG_FLAGS[c]),
-                                             '' if u == 'aesni' else ' (without CPUSUPPORT_X86_AESNI)')
+    ctx.cov['builds_run'] = ['%s: gcc %s%s' % (bname(c, u), ' '.join(core.CFG_FLAGS[c]), ENV_TEXT[u])
                              for c, u in which]
+    ctx.cov['aes_environments'] = {
+        b: {'cases_on_aesni_code': d.get('aes.impl_aesni', 0),
+            'cases_on_openssl_key': d.get('aes.impl_openssl', 0),
+            'detector_said_absent': d.get('aes.env.detector_said_absent_openssl_key_used', 0),
+            'selftest_failed': d.get('aes.env.selftest_failed_openssl_key_used', 0),
+            'key_objects_holding_round_keys_before_free': d.get('aes.cases_secret_present_before_free', 0)}
+        for b, d in sorted(per.items())}
+    ctx.cov['aws_stdio_faults'] = {
+        b: {ft: {k.split('.', 3)[3]: v for k, v in sorted(d.items()) if k.startswith('aws.fault.%s.' % ft)}
+            for ft in FAULT_TYPES}
+        for b, d in sorted(per.items()) if b.endswith('-aesni')}
     ctx.assumptions += [
         'runtime monitoring speaks only for the builds that ran (gcc, flags listed in builds_run); quick omits -flto',
         'contexts inside *_Buf helpers and PBKDF2_SHA256 live on the library\'s own stack and are not observable: not claimed',
@@ -833,7 +1089,12 @@ def run(ctx):
         'DH fault enumeration: one refused allocation per run (no double faults); the fault points are the allocations the '
         'installed OpenSSL makes for these inputs (N is counted per triple, histogram in dh_fault_enumeration), '
         'failures of OpenSSL operations that are not allocation failures are not injected; a refused realloc leaves the old '
-        'block with OpenSSL; only the -aesni builds run the DH groups (crypto_dh.c does not depend on the AES variant)',
+        'block with OpenSSL; only the -aesni builds run the hash, DH and key-file groups (those sources do not depend on the AES environment)',
+        'AES environments: "absent" and "stfail" are produced on a host that has AES-NI (substituted detector / refused allocation in the '
+        'self-test); other causes of a failing self-test (wrong ciphertext) lead to the same library state (hwaccel == HW_SOFTWARE) and are '
+        'not injected separately; ARM is not built',
+        'aws_readkeys under stdio faults: one fault per call; the key id is freed unwiped by design and is not searched for; a return of 0 '
+        'hands the strings to the caller and nothing is judged; the 1024-byte line buffer on the stack and libc\'s FILE buffer are not observable',
         'AES-CTR: a stream object caches a keystream block only after a partial block on the AES-NI path; '
         'ctr.objects_caching_known_keystream_at_free counts the objects for which the wipe was actually decidable',
     ]
@@ -849,5 +1110,5 @@ def replay(ctx, case):
     STATS.clear()
     scr = os.path.join(ctx.tmp, 'scr-replay')
     os.makedirs(scr, exist_ok=True)
-    r = core.line_shard(exes[build], [c], judge=judge, args=(scr,), timeout=1500)
+    r = core.line_shard(exes[build], [c], judge=judge, args=drv_args(build, scr), timeout=1500)
     core.merge(ctx, [r])
